@@ -217,20 +217,42 @@ func runC01(p *an.Prog, r *an.Run, tier string) {
 // (or typed SettleHandler) and writes a negated amount.
 func isSettlementConsumer(p *an.Prog, fn *ssa.Function, calls []ssa.CallInstruction) bool {
 	settles := settleCalls(fn)
-	if len(settles) == 0 {
+	if len(settles) != 1 {
 		return false
 	}
-	var cut []an.Edge
-	for _, s := range settles {
-		cut = append(cut, an.ErrEdges(s).Succ...)
-	}
-	reach := an.ReachAvoiding(fn, an.EdgeSet(cut))
+	settle := settles[0]
+	reach := an.ReachAvoiding(fn, an.EdgeSet(an.ErrEdges(settle).Succ))
 	for _, c := range calls {
 		if reach[c.Block()] {
 			return false
 		}
 		a := methodArgs(c)
-		if len(a) != 2 || negCallOf(p, a[1]) == nil {
+		if len(a) != 2 {
+			return false
+		}
+		neg := negCallOf(p, a[1])
+		if neg == nil {
+			return false
+		}
+		// the consumed amount is the Credit of the single balance snapshot read before settlement
+		na := neg.Call.Args
+		root, path := an.RootPath(na[len(na)-1])
+		al, _ := root.(*ssa.Alloc)
+		if al == nil || path != ".Credit" {
+			return false
+		}
+		nStores, okSrc := 0, false
+		for _, ref := range *al.Referrers() {
+			if st, ok := ref.(*ssa.Store); ok && st.Addr == ssa.Value(al) {
+				nStores++
+				if ex, ok := st.Val.(*ssa.Extract); ok {
+					if g, ok := ex.Tuple.(*ssa.Call); ok && isStoreMethodNamed(an.CallObj(g), "GetAccountBalance") && an.Dominates(g, settle.(ssa.Instruction)) {
+						okSrc = true
+					}
+				}
+			}
+		}
+		if nStores != 1 || !okSrc {
 			return false
 		}
 	}
